@@ -183,21 +183,23 @@ def block_thermal_holstein(ctx, ht):
     schemes = [dict(kind="tdrk4"), dict(kind="pc"), dict(kind="tdrk", rk="Fehlberg5"),
                dict(kind="ps", solver="krylov"), dict(kind="ps2", solver="krylov"),
                dict(kind="pc", adaptive=True, adaptive_rtol=1e-6, guess_dt=0.05),
-               dict(kind="muvmf", ivp_rtol=1e-7, ivp_atol=1e-9, force_ovlp=True, reg_epsilon=1e-10)]
+               dict(kind="muvmf", ivp_rtol=1e-7, ivp_atol=1e-9, force_ovlp=True, reg_epsilon=1e-10),
+               dict(kind="cmf", solver="krylov", midpoint=True)]
     explicit_sector = bool(rng.random() < 0.5)
-    for ex in (False, True):
+    # per model: both sectors with a random scheme, then the one-exciton sector once more with the constant-mean-field scheme
+    for ex, forced in ((False, None), (True, None), (True, schemes[-1])):
         P = np.diag(ht.sector(1 if ex else 0).astype(float))
         # beta over two decades (in units of the spectral width)
         beta = float(10 ** rng.uniform(-1.3, 0.7)) / nh
-        spec = schemes[int(rng.integers(0, len(schemes)))]
+        spec = forced if forced is not None else schemes[int(rng.integers(0, len(schemes)))]
         nm = name_of(spec)
         nsteps = int(rng.integers(1, 5)) if spec.get("adaptive") or spec["kind"] in ("muvmf",) else int(rng.integers(4, 9))
-        if spec["kind"] in ("ps", "ps2", "muvmf"):
+        if spec["kind"] in ("ps", "ps2", "muvmf", "cmf"):
             nsteps = max(nsteps, 6)
         # half of the cases: the ensemble Hamiltonian is passed explicitly (`h_mpo_model`) and the initial density operator
         # was built from ANOTHER model with the same local bases (other energies, couplings and displacements)
         explicit = ex == explicit_sector
-        if explicit and spec["kind"] in ("ps", "ps2", "muvmf"):
+        if explicit and spec["kind"] in ("ps", "ps2", "muvmf", "cmf"):
             spec = schemes[int(rng.integers(0, 3))]
             nm = name_of(spec)
             nsteps = int(rng.integers(4, 9))
@@ -229,7 +231,7 @@ def block_thermal_holstein(ctx, ht):
         # tolerance: TDVP on a purified state whose bonds were filled with 1e-10 noise, and fixed-step
         # integrators with beta/2/nsteps steps: order-2 estimate with a generous constant
         dt = beta / 2 / nsteps
-        tol = 2e-3 + 2.0 * (nh * dt) ** 2 if spec["kind"] in ("ps", "ps2", "muvmf") else 1e-4 + 0.2 * nsteps * (nh * dt) ** 5
+        tol = 2e-3 + 2.0 * (nh * dt) ** 2 if spec["kind"] in ("ps", "ps2", "muvmf", "cmf") else 1e-4 + 0.2 * nsteps * (nh * dt) ** 5
         worst = 0.0
         detail = None
         for k in range(nsteps + 1):
